@@ -5,6 +5,8 @@ pub struct HeartbeatTimers {
     /// ghost: number of activity stamps recorded so far
     pub rx_marks: Ghost<nat>,
     pub tx_marks: Ghost<nat>,
+    /// ghost: how often fire_rx has reported the server's interval as expired
+    pub rx_expiries: Ghost<nat>,
 }
 impl HeartbeatTimers {
     /// timeouts are only ever set by start()/fire_*(): an armed timer means heartbeats were started
@@ -17,10 +19,12 @@ impl HeartbeatTimers {
     #[verifier::external_body]
     pub fn record_rx_activity(&mut self)
         ensures final(self).rx_marks@ == old(self).rx_marks@ + 1, final(self).tx_marks@ == old(self).tx_marks@, final(self).started@ == old(self).started@, final(self).timer == old(self).timer,
+            final(self).rx_expiries@ == old(self).rx_expiries@,
     { unimplemented!() }
     #[verifier::external_body]
     pub fn record_tx_activity(&mut self)
         ensures final(self).tx_marks@ == old(self).tx_marks@ + 1, final(self).rx_marks@ == old(self).rx_marks@, final(self).started@ == old(self).started@, final(self).timer == old(self).timer,
+            final(self).rx_expiries@ == old(self).rx_expiries@,
     { unimplemented!() }
     /// start() asserts that timers were not started before (heartbeat_timers.rs), Heartbeat::start that the interval is not zero
     /// (heartbeats.rs), and twice the interval must be representable (unit `heartbeat` proves the real start() under exactly this)
@@ -29,6 +33,7 @@ impl HeartbeatTimers {
         requires !old(self).started@, interval.ns > 0, 2 * interval.ns as int <= time_mirror::dur_max(),
         ensures final(self).started@, final(self).timer.armed(), final(self).rx_marks@ == old(self).rx_marks@, final(self).tx_marks@ == old(self).tx_marks@,
             final(self).timer.pending().count(HeartbeatKind::Rx) > 0, final(self).timer.pending().count(HeartbeatKind::Tx) > 0,
+            final(self).rx_expiries@ == old(self).rx_expiries@,
     { unimplemented!() }
     /// fire_* expect started timers (the two `expect`s in heartbeat_timers.rs)
     #[verifier::external_body]
@@ -36,11 +41,13 @@ impl HeartbeatTimers {
         requires old(self).started@,
         ensures final(self).started@, final(self).timer.armed(), final(self).rx_marks@ == old(self).rx_marks@, final(self).tx_marks@ == old(self).tx_marks@,
             final(self).timer.pending().count(HeartbeatKind::Rx) > 0, final(self).timer.pending().count(HeartbeatKind::Tx) == old(self).timer.pending().count(HeartbeatKind::Tx),
+            final(self).rx_expiries@ == old(self).rx_expiries@ + (if r is Expired { 1nat } else { 0nat }),
     { unimplemented!() }
     #[verifier::external_body]
     pub fn fire_tx(&mut self) -> (r: HeartbeatState)
         requires old(self).started@,
         ensures final(self).started@, final(self).timer.armed(), final(self).rx_marks@ == old(self).rx_marks@, final(self).tx_marks@ == old(self).tx_marks@,
             final(self).timer.pending().count(HeartbeatKind::Tx) > 0, final(self).timer.pending().count(HeartbeatKind::Rx) == old(self).timer.pending().count(HeartbeatKind::Rx),
+            final(self).rx_expiries@ == old(self).rx_expiries@,
     { unimplemented!() }
 }
